@@ -6,6 +6,12 @@ Tie of the theorems of NxProps/C14.lean to the tree:
    with a recording implementation; the arguments the implementation saw and the values the caller got back are
    compared, as canonical trees, with what was passed / returned (the interpreter's `visible` value: gated-out
    attributes keep their defaults);
+ * every method with a string-valued position (arguments, results, structure fields, list / map elements and keys, station
+   URLs, variants, anydata contents) is repeated under every configuration with non-ASCII text and with a string from the
+   EDGES of the value domain in every such position (harness/c14_values.py: ending in / consisting of / containing U+0000,
+   white space and control characters at either end, BOM, U+D7FF / U+E000 / U+FFFD..U+FFFF, normalisation-sensitive text,
+   encoded lengths 254..256, 32766..32768, 65533, 65534 = the longest encodable string, map keys that differ only in such
+   a tail); the same mode is drawn for a share of the calls of the bursts, the PRUDP sessions and the mixed sessions;
  * struct headers are never set by the harness: they follow from the transport's minor version (struct_header_auto);
  * unsupported methods, methods left at the generated stub, unknown method and protocol ids -> Core::NotImplemented;
  * state must not leak between connections: sequences of connections with mixed minor versions sharing one Settings
@@ -70,7 +76,9 @@ def run(ctx):
     exe = ctx.driver().exe
     ctx.rule = ("every supported method of every generated module called through generated client -> RMCClient -> in-memory transport -> RMCClient -> generated "
                 "server with a recording implementation, under nex.version in {0, every gate, gate-1, 99999} x (minor version <3 / >=3, which decides the struct header) x pid size 4/8, "
-                "%s schema-directed value set(s) per (method, configuration); every unsupported / unimplemented / unknown method and an unknown protocol per module; "
+                "%s schema-directed value set(s) per (method, configuration), every method with a string-valued position repeated with non-ASCII text and again with a string from the EDGES "
+                "of the domain in every such position (ending in / only / containing U+0000, white space and control characters at the ends, BMP border characters, lengths at the borders of the "
+                "16-bit prefix up to the longest encodable string of 65534 bytes, map keys differing only in their tail); every unsupported / unimplemented / unknown method and an unknown protocol per module; "
                 "every versioned structure under every header-on configuration with %s; "
                 "per module slice and protocol: sequences of 7 connections with mixed negotiated minor versions (4,2,4,0,3 plus two random) in which the server side, the client side, "
                 "or both pass ONE shared Settings object to every RMCClient, 3 structure-carrying calls per connection, each connection compared (wire bytes, arguments seen, results, "
@@ -201,6 +209,9 @@ def run(ctx):
     ctx.extra["calls_made_in_bursts"] = ctx.tags.get("burst:calls-matched", 0)
     ctx.extra["non_ascii_repetitions"] = sum(c for t, c in ctx.tags.items() if t.startswith("rpc-nonascii-rep:") and not t.endswith("string-positions"))
     ctx.extra["non_ascii_string_positions"] = ctx.tags.get("rpc-nonascii-rep:string-positions", 0)
+    ctx.extra["edge_string_repetitions"] = sum(c for t, c in ctx.tags.items() if t.startswith("rpc-edge-rep:") and not t.startswith("rpc-edge-rep:strings:"))
+    ctx.extra["edge_string_positions"] = sum(c for t, c in ctx.tags.items() if t.startswith("rpc-edge-rep:strings:"))
+    ctx.extra["edge_strings_of_the_longest_encodable_length"] = ctx.tags.get("rpc-edge-rep:strings:longest", 0)
     ctx.extra["wire_sessions"] = sum(c for t, c in ctx.tags.items() if t.startswith("wire:") and t.split(":")[1] in W14.PROFILES)
     ctx.extra["wire_calls_ok"] = sum(c for t, c in ctx.tags.items() if t.startswith("wire-call:") and t.endswith(":ok"))
     ctx.extra["wire_datagrams"] = ctx.tags.get("wire:datagrams", 0)
